@@ -470,6 +470,14 @@ impl Monitor for OptMon {
                 self.first = Some(data.to_vec());
                 return self.judge_first(data);
             }
+            // an OACK that is sent again says what the first one said
+            if *dst == self.client && matches!(rfc::decode(data), Some(Pkt::Oack(_))) {
+                if let Some(f) = &self.first {
+                    if matches!(rfc::decode(f), Some(Pkt::Oack(_))) && f.as_slice() != &data[..] {
+                        return Some(self.v("oack_changed_on_repeat", format!("the OACK was sent again with different content: first {}, now {}", rfc::summary(f), rfc::summary(data))));
+                    }
+                }
+            }
         }
         None
     }
